@@ -329,6 +329,35 @@ struct CompressedPGMIndex<K, Epsilon, EpsilonRecursive, Floating>::CompressedLev
             slopes_map.back() = slopes_table[*std::prev(last_slope)];
     }
 
+    // sel1 points to compressed_intercepts: copies and moves must re-bind it to their own bitvector
+    CompressedLevel(const CompressedLevel &other)
+        : keys(other.keys),
+          slopes_map(other.slopes_map),
+          intercept_offset(other.intercept_offset),
+          compressed_intercepts(other.compressed_intercepts),
+          sel1(other.sel1) {
+        sel1.set_vector(&compressed_intercepts);
+    }
+
+    CompressedLevel(CompressedLevel &&other)
+        : keys(std::move(other.keys)),
+          slopes_map(std::move(other.slopes_map)),
+          intercept_offset(other.intercept_offset),
+          compressed_intercepts(std::move(other.compressed_intercepts)),
+          sel1(std::move(other.sel1)) {
+        sel1.set_vector(&compressed_intercepts);
+    }
+
+    CompressedLevel &operator=(CompressedLevel other) {
+        keys = std::move(other.keys);
+        slopes_map = std::move(other.slopes_map);
+        intercept_offset = other.intercept_offset;
+        compressed_intercepts = std::move(other.compressed_intercepts);
+        sel1 = std::move(other.sel1);
+        sel1.set_vector(&compressed_intercepts);
+        return *this;
+    }
+
     inline size_t operator()(const std::vector<Floating> &slopes, size_t i, K k) const {
         auto pos = int64_t(get_slope(slopes, i) * (k - keys[i])) + get_intercept(i);
         return pos > 0 ? size_t(pos) : 0ull;
